@@ -1,5 +1,6 @@
 """Check runner: obligations, verdicts, known findings, evidence and replay files."""
 import json
+import re
 import os
 import pathlib
 import sys
@@ -96,7 +97,43 @@ class Run:
             if k.get('property') == self.pid and k.get('construct') == c:
                 self._add('known', rule, instance, loc, detail, c, path)
                 return
+        # a report needs a construct the model follows: where the function it points at contains constructs that are not followed (and that its reference version did
+        # not contain), the deviation may be an artefact of the model - the obligation is undecided, the check ends inconclusive
+        why = self._not_followed(loc, c)
+        if why:
+            self._add('unresolved', rule, instance, loc, f'not decided, the function uses constructs the model does not follow ({why}); would otherwise read: {detail}', c, path)
+            return
         self._add('violation', rule, instance, loc, detail, c, path)
+
+    def _not_followed(self, loc, construct):
+        try:
+            from .opaque import new_opaque_constructs
+            from .terms import known_funcs
+            m = re.match(r'(.+?\.py):(\d+)', str(loc or ''))
+            places = []
+            if m:
+                places.append((m.group(1), int(m.group(2))))
+            # the function a construct key names (`R-LOOP::pkg.mod::Class.method::...`)
+            for part in str(construct or '').split('::'):
+                pass
+            mq = re.search(r'(pb_bss[\w.]*)::([\w.]+)', str(construct or ''))
+            if mq:
+                fn = None
+                try:
+                    fn = self.A.prog.func(f'{mq.group(1)}::{mq.group(2)}')
+                except Exception:
+                    fn = None
+                if fn is not None:
+                    places.append((fn.mod.relpath, fn.node.lineno))
+            found = {}
+            for rel, line in places:
+                for k, v in new_opaque_constructs(self.A.prog, rel, line, known_funcs()).items():
+                    found[k] = max(found.get(k, 0), v)
+            return ', '.join(f'{k}: {v}' for k, v in sorted(found.items()))
+        except AnalysisError:
+            raise
+        except Exception:
+            return ''
 
     def check(self, cond, rule, instance, loc, detail_ok='', detail_bad='', construct=None, path=None):
         if cond:
